@@ -28,7 +28,8 @@ def build_cli():
 class Services:
     """resolver + service A (org.example.a) + service B (org.example.b), each its own process"""
 
-    def __init__(self, tag):
+    def __init__(self, tag, serial=False):
+        """serial: services a and b serve one connection at a time (a single worker thread)"""
         os.makedirs(TMP, exist_ok=True)
         self.dir = os.path.join(TMP, "svc-%s-%d" % (tag, os.getpid()))
         os.makedirs(os.path.join(self.dir, "deep", "er"), exist_ok=True)
@@ -37,8 +38,9 @@ class Services:
         self.r = "unix:" + os.path.join(self.dir, "resolver.sock")
         self.tcp = None
         act = harness_bin("h_actsrv")
-        self.procs = [subprocess.Popen([act, "--listen-one", self.a, "a"], stderr=subprocess.DEVNULL),
-                      subprocess.Popen([act, "--listen-one", self.b, "b"], stderr=subprocess.DEVNULL),
+        one = "--listen-one1" if serial else "--listen-one"
+        self.procs = [subprocess.Popen([act, one, self.a, "a"], stderr=subprocess.DEVNULL),
+                      subprocess.Popen([act, one, self.b, "b"], stderr=subprocess.DEVNULL),
                       subprocess.Popen([act, "--resolver", self.r, "org.example.a=" + self.a, "org.example.b=" + self.b], stderr=subprocess.DEVNULL)]
         for addr in (self.a, self.r):
             p = addr[5:]
@@ -189,9 +191,11 @@ def c18(ck):
     if not ok:
         return
     ck.rule = ("bridge modes {resolver lookup, --connect ADDRESS, --activate CMD, --bridge CMD} x request sequences over two services behind a scripted resolver (plain, more, oneway, unknown "
-               "interface, service-info queries; the bridge must switch targets) x client behaviours (pipelined, one-at-a-time, closing after the last expected reply) x upgraded sessions with "
+               "interface, service-info queries; the bridge must switch targets; targets with a worker pool and targets serving one connection at a time) x client behaviours (pipelined, one-at-a-time, closing after the last expected reply) x upgraded sessions with "
                "payload; stdout and exit status of the real `varlink bridge` process against direct sockets; non-trivial = at least two requests; distinct by (mode, sequence, behaviour)")
-    sv = Services("c18")
+    sv_par = Services("c18")
+    sv_ser = Services("c18s", serial=True)
+    sv = sv_par
     try:
         def rq(iface, script, tag, **fl):
             return req("%s.Run" % iface, {"script": script, "tag": tag}, **fl)
@@ -237,8 +241,15 @@ def c18(ck):
                 cache_seqs.append([alpha[x](i) for i, x in enumerate(pat)])
         seqs += cache_seqs
         modes = ["resolver", "connect", "activate", "bridge"]
+        # "resolver-serial": the resolver's targets serve one connection at a time (ListenConfig.max_worker_threads = 1): the bridge
+        # must be done with one target connection before it depends on an answer over the next
+        serial_ids = set(list(range(5)) + [n_fixed + k for k in (0, 1, 5, 21, 42)])
         for si, seq in enumerate(seqs):
-            for mode in (modes if si < n_fixed else ["resolver"]):
+            for mode in (modes if si < n_fixed else ["resolver"]) + (["resolver-serial"] if si in serial_ids else []):
+                sv = sv_ser if mode == "resolver-serial" else sv_par
+                label = mode
+                if mode == "resolver-serial":
+                    mode = "resolver"
                 if mode != "resolver":
                     # a direct connection reaches one service only: keep the requests for interface a (and service-info)
                     sq = [r for r in seq if not r["method"].startswith(Bn)]
@@ -280,16 +291,17 @@ def c18(ck):
                         out = b""
                         # one request, wait for its replies, next request: emulate by running with per-request expectations
                     out, rc, err, to = run_bridge(args, parts, nframes)
-                    ck.case("%s|%d|%s" % (mode, si, behaviour), nontrivial=len(sq) >= 2,
-                            sample={"mode": mode, "behaviour": behaviour, "requests": [r["method"] + ("/more" if r.get("more") else "") + ("/oneway" if r.get("oneway") else "") for r in sq]} if len(ck.samples) < 5 else None)
-                    ck.count("mode=" + mode)
-                    desc = {"mode": mode, "behaviour": behaviour, "requests": sq}
+                    ck.case("%s|%d|%s" % (label, si, behaviour), nontrivial=len(sq) >= 2,
+                            sample={"mode": label, "behaviour": behaviour, "requests": [r["method"] + ("/more" if r.get("more") else "") + ("/oneway" if r.get("oneway") else "") for r in sq]} if len(ck.samples) < 5 else None)
+                    ck.count("mode=" + label)
+                    desc = {"mode": label, "behaviour": behaviour, "requests": sq}
                     if canon_reply_stream(out) != canon_reply_stream(exp):
                         ck.failures.append(dict(desc, what="the client of `varlink bridge` does not observe the reply sequence of the services themselves",
                                                 got=out.decode("utf-8", "replace")[:800], expected=exp.decode("utf-8", "replace")[:800], stderr=err[-300:], exit=rc))
                     elif rc != 0:
                         ck.failures.append(dict(desc, what="the bridge did not exit successfully after the client closed its side", exit=rc, stderr=err[-300:]))
         # upgraded sessions
+        sv = sv_par
         for mode in ("resolver", "connect"):
             args = {"resolver": ["--resolver", sv.r, "bridge"], "connect": ["bridge", "--connect", sv.a]}[mode]
             # the last two: exactly one / two read buffers (8192) of payload with a line end shortly before the end,
@@ -341,7 +353,8 @@ def c18(ck):
                 elif rc2 != 0:
                     ck.failures.append({"what": "the bridge did not exit successfully after an upgraded session was closed by the client", "mode": mode, "exit": rc2})
     finally:
-        sv.stop()
+        sv_par.stop()
+        sv_ser.stop()
 
 
 def feed_line_default(r):
@@ -369,7 +382,7 @@ def c20(ck):
         return
     ck.rule = ("reply values of a scripted service (nested objects, arrays, non-ASCII and escape-heavy strings, integers across the i64/u64 range, floats Rust prints canonically, empty objects) x "
                "{call, call --more with 0..k continues replies, error replies with and without parameters, connection closed before the final reply} x address forms {unix path with several "
-               "slashes, abstract, tcp, resolver lookup} x --color on/off; stdout parsed as a JSON value stream must equal the successful replies' parameters in order, exit status 0 iff every "
+               "slashes, abstract, tcp, resolver lookup} x --color on/off, with and without --debug; stdout parsed as a JSON value stream must equal the successful replies' parameters in order, exit status 0 iff every "
                "expected reply arrived and none was an error; non-trivial = all; distinct by case")
     sv = Services("c20")
     sv.add_tcp()
@@ -405,6 +418,9 @@ def c20(ck):
             method = "org.example.a.Run"
             url = (addr + "/" + method) if addr else method
             args = ["--color", color]
+            # --debug does not change what is printed on standard output or the exit status
+            if n % 5 == 2:
+                args = ["--debug"] + args
             if addr is None:
                 args += ["--resolver", sv.r]
             args += ["call"] + (["--more"] if more else []) + [url, json.dumps(params)]
